@@ -63,6 +63,47 @@ def check_guard(ctx: Ctx, cname: str, member="interface_distance"):
                 ctx.hold("GUARD", site, (fi, lp.node), f"{n} term(s), each skipped only when its own amplitude is exactly zero")
 
 
+ALL_ZERO_FORMS = (
+    "np.all(self.amplitudes == 0)", "(self.amplitudes == 0).all()", "not np.any(self.amplitudes)", "not self.amplitudes.any()", "not np.any(self.amplitudes != 0)",
+    "not (self.amplitudes != 0).any()", "np.count_nonzero(self.amplitudes) == 0", "self.modes == 0", "len(self.amplitudes) == 0", "self.amplitudes.size == 0",
+)
+
+
+def check_shortcuts(ctx: Ctx, rule="GUARD"):
+    """A shortcut that treats a perturbed droplet as unperturbed (early return of the spherical result) may only be taken
+    when *every* amplitude vanishes.  Reductions such as `amplitudes.sum() == 0` are also true for amplitudes that cancel
+    ([0.3, −0.3]), for which the shape is not a sphere."""
+    m = ctx.model
+    base = m.cls("PerturbedDropletBase")
+    n = 0
+    for ci in [base] + m.subclasses(base):
+        for name, lst in ci.methods.items():
+            for fi in lst:
+                if fi.cls is not ci or isinstance(fi.node, ast.Lambda):
+                    continue
+                fv = view(m, fi)
+                si = stmt_index(fv)
+                for r in [x for x in fv.statements() if isinstance(x, ast.Return)]:
+                    for test, pol in si.effective_guards(r):
+                        tx = fv.expand(test, test, allow_mutated=False)
+                        if "amplitudes" not in U(tx):
+                            continue
+                        # only tests that compare a *reduction* of the amplitudes are of interest
+                        red = [c for c in ast.walk(tx) if isinstance(c, ast.Call) and ((isinstance(c.func, ast.Attribute) and c.func.attr in ("sum", "mean", "prod", "max", "min", "std", "var", "dot"))
+                               or (U(c.func).split(".")[-1] in ("sum", "mean", "prod", "max", "min", "norm", "dot", "fsum", "nansum"))) and "amplitudes" in U(c)]
+                        if not red:
+                            continue
+                        n += 1
+                        txt = U(tx)
+                        absval = any(isinstance(c, ast.Call) and U(c.func).split(".")[-1] in ("abs", "absolute", "square", "fabs") and "amplitudes" in U(c) for c in ast.walk(tx)) or "amplitudes ** 2" in txt
+                        ok = absval or "norm" in txt
+                        ctx.decide(ok, rule, f"{fi.qualname}:shortcut", (fi, r),
+                                   "the shortcut tests a quantity that vanishes only when all amplitudes vanish",
+                                   f"`{U(r)[:50]}` is taken when `{txt[:70]}` is {pol}: a reduction of the signed amplitudes also vanishes for amplitudes that cancel "
+                                   "(e.g. [0.3, −0.3]), for which the droplet is not a sphere — the shape/volume returned is that of the unperturbed droplet")
+    return n
+
+
 def check(ctx: Ctx):
     ctx.explain(
         "Renderer template rules over SphericalDroplet/DiffuseDroplet/PerturbedDropletBase._get_phase_field with the smooth "
@@ -86,6 +127,7 @@ def check(ctx: Ctx):
             if f.rule == "COEFF" and "interface_distance" in f.site:
                 ctx.findings.append(f)
         ctx.functions |= sub.functions
+    check_shortcuts(ctx)
     render.check_scaling(ctx)
     render.check_real_harmonics(ctx)
     render.check_sum_clip(ctx)
